@@ -31,6 +31,8 @@ import random
 
 from harness import core, irgen, native, project_ir
 from harness import armrun
+from harness import mipsrun
+from harness import m68krun
 from harness.tlc import MachineryError
 
 logging.getLogger().addHandler(logging.NullHandler())   # ppci warns through logging; keep the check's output clean
@@ -598,6 +600,8 @@ class Engine:
         if ctx.only is not None:
             thorough = ctx.only.get("tier", ctx.tier) == "thorough"
         if armrun.c05_hook(ctx, thorough, part, only): return   # arm / thumb part (tla/ArmExec.tla); True: C05_PART=arm or a replay of one of its cases
+        if mipsrun.c05_hook(ctx, thorough, part, only): return   # mips part (tla/MipsExec.tla); True: C05_PART=mips or a replay of one of its cases
+        if m68krun.c05_hook(ctx, thorough, part, only): return   # m68k part (tla/M68kExec.tla); True: C05_PART=m68k or a replay of one of its cases
         if part in ("", "riscv"):
             from engines import c05rv
 
